@@ -11,14 +11,14 @@ theorem fillOk_nil' (r : Rule) (p : Inst) (n : Nat) : FillOk r p n [] :=
   ⟨Nat.zero_le _, fun h => h, fun _ h => (nomatch h), fun _ h => (nomatch h), fun _ h => (nomatch h), List.Pairwise.nil⟩
 
 theorem fillYly_ok (r : Rule) (p : Inst) (n : Nat) (l : List Inst) (hr : WfRule r) (hp : WfInst p)
-    (hk : KindOk r p) (hs : ShiftOk r) (h : fillYly r p n = some l) : FillOk r p n l :=
-  fillYly_ok_at r p n l hr hp (hs.yly p hp) hk.allDayOk h
+    (hs : ShiftOk r) (h : fillYly r p n = some l) : FillOk r p n l :=
+  fillYly_ok_at r p n l hr hp (hs.yly p hp) h
 
 theorem fillMly_ok (r : Rule) (p : Inst) (n : Nat) (l : List Inst) (hr : WfRule r) (hp : WfInst p)
-    (hk : KindOk r p) (hs : ShiftOk r) (h : fillMly r p n = some l) : FillOk r p n l :=
+    (hs : ShiftOk r) (h : fillMly r p n = some l) : FillOk r p n l :=
   { len_nti := (fillMly_len r p n l hr h).1
     len_count := (fillMly_len r p n l hr h).2
-    wf := fillMly_wf_at r p n l hr hp (hs.mly p hr hp) hk.allDayOk h
+    wf := fillMly_wf_at r p n l hr hp (hs.mly p hr hp) h
     ge_proto := (fillMly_bounds r p n l h).1
     le_until := (fillMly_bounds r p n l h).2
     ascending := fillMly_asc r p n l hr hp h }
@@ -26,31 +26,35 @@ theorem fillMly_ok (r : Rule) (p : Inst) (n : Nat) (l : List Inst) (hr : WfRule 
 /-- C16 / C09 for one filler call, whatever the frequency: at most `n` and at most COUNT sane instants, none before
 the seed, none after UNTIL, strictly ascending -/
 theorem fill_contract (r : Rule) (p : Inst) (n : Nat) (l : List Inst) (hr : WfRule r) (hp : WfInst p)
-    (hk : KindOk r p) (hs : ShiftOk r) (hn : n ≤ 64) (h : fill r p n = some l) : FillOk r p n l := by
+    (hs : ShiftOk r) (hn : n ≤ 64) (h : fill r p n = some l) : FillOk r p n l := by
   unfold fill at h
   split at h
-  · exact fillYly_ok r p n l hr hp hk hs h
-  · exact fillMly_ok r p n l hr hp hk hs h
-  · exact Echse.Lemmas.RrWlyOk.fillWly_ok_partial r p n l hr hp hn hk.timeOk h
-  · exact Echse.Lemmas.RrDlyOk.fillDly_ok_partial r p n l hr hp hn hk.timeOk h
+  · exact fillYly_ok r p n l hr hp hs h
+  · exact fillMly_ok r p n l hr hp hs h
+  · exact Echse.Lemmas.RrWlyOk.fillWly_ok r p n l hr hp hn h
+  · exact Echse.Lemmas.RrDlyOk.fillDly_ok r p n l hr hp hn h
   · exact Echse.Lemmas.RrHlyOk.fillHly_ok r p n l hr hp hn h
   · exact Echse.Lemmas.RrMnlyOk.fillMnly_ok r p n l hr hp hn h
   · exact Echse.Lemmas.RrSlyOk.fillSly_ok r p n l hr hp hn h
   · cases h; exact fillOk_nil' r p n
 
-/-- the sub-daily fillers need neither proviso -/
-theorem fill_contract_subdaily (r : Rule) (p : Inst) (n : Nat) (l : List Inst) (hr : WfRule r) (hp : WfInst p)
-    (hf : 5 ≤ r.freq) (hn : n ≤ 64) (h : fill r p n = some l) : FillOk r p n l := by
+/-- the weekly, daily and sub-daily fillers need no proviso -/
+theorem fill_contract_weekly_down (r : Rule) (p : Inst) (n : Nat) (l : List Inst) (hr : WfRule r) (hp : WfInst p)
+    (hf : 3 ≤ r.freq) (hn : n ≤ 64) (h : fill r p n = some l) : FillOk r p n l := by
   unfold fill at h
   split at h
   · omega
   · omega
-  · omega
-  · omega
+  · exact Echse.Lemmas.RrWlyOk.fillWly_ok r p n l hr hp hn h
+  · exact Echse.Lemmas.RrDlyOk.fillDly_ok r p n l hr hp hn h
   · exact Echse.Lemmas.RrHlyOk.fillHly_ok r p n l hr hp hn h
   · exact Echse.Lemmas.RrMnlyOk.fillMnly_ok r p n l hr hp hn h
   · exact Echse.Lemmas.RrSlyOk.fillSly_ok r p n l hr hp hn h
   · cases h; exact fillOk_nil' r p n
+
+theorem fill_contract_subdaily (r : Rule) (p : Inst) (n : Nat) (l : List Inst) (hr : WfRule r) (hp : WfInst p)
+    (hf : 5 ≤ r.freq) (hn : n ≤ 64) (h : fill r p n = some l) : FillOk r p n l :=
+  fill_contract_weekly_down r p n l hr hp (by omega) hn h
 
 /-- C09: every filler call returns -/
 theorem fill_total (r : Rule) (p : Inst) (n : Nat) (hr : WfRule r) (hp : WfInst p) (hn : n ≤ 64) :
@@ -66,8 +70,25 @@ theorem fill_total (r : Rule) (p : Inst) (n : Nat) (hr : WfRule r) (hp : WfInst 
   · exact Echse.Lemmas.RrSlyOk.fillSly_total r p n hr hp hn
   · rfl
 
-/-- what the yearly, monthly, weekly and daily filler write has the kind of the seed: `KindOk` is handed on to the
-next refill's seed (sub-daily fillers: RrAsm12 `fill_kind_all`) -/
+/-- what the yearly, monthly, weekly and daily filler write has the kind of the seed: all-day exactly if the seed is -/
+theorem fill_same_kind (r : Rule) (p : Inst) (n : Nat) (l : List Inst) (hr : WfRule r) (hp : WfInst p)
+    (hf : r.freq ≤ 4) (h : fill r p n = some l) : ∀ x ∈ l, (x.H = allDay ↔ p.H = allDay) := by
+  intro x hx
+  have hh : HFrom r p x := by
+    unfold fill at h
+    split at h
+    · exact fillYly_hfrom r p n l h x hx
+    · exact fillMly_hfrom r p n l h x hx
+    · exact fillWly_hfrom r p n l h x hx
+    · exact fillDly_hfrom r p n l h x hx
+    · omega
+    · omega
+    · omega
+    · cases h; cases hx
+  exact ⟨hh.of_allDay hr hp, hh.allDay_of⟩
+
+/-- … so `KindOk` (no longer a proviso of anything) goes on to the next refill's seed (sub-daily fillers: RrAsm12
+`fill_kind_all`) -/
 theorem fill_kind (r : Rule) (p : Inst) (n : Nat) (l : List Inst) (hr : WfRule r) (hp : WfInst p) (hk : KindOk r p)
     (hf : r.freq ≤ 4) (h : fill r p n = some l) : ∀ x ∈ l, KindOk r x := by
   intro x hx
